@@ -38,8 +38,9 @@ pub enum Cancel {
 /// Value carried by cancellation triggered by the step budget.
 pub const BUDGET_MARK: u64 = u64::MAX;
 
-#[derive(Clone, Copy, Debug, PartialEq, Eq)]
+#[derive(Clone, Copy, Debug, PartialEq, Eq, Default, serde::Serialize, serde::Deserialize)]
 pub enum SortProbe {
+    #[default]
     Off,
     /// `sort_candidates` re-enters the `SolverCache` (candidates of the package of the first
     /// solvable, dependencies availability of each) and records what it saw.
@@ -49,6 +50,10 @@ pub enum SortProbe {
     /// cache for their dependencies and then for the candidates of every package those
     /// mention. These nested requests may be the FIRST request for such a package.
     Deps,
+    /// as `Deps`, but the first nested dependencies request of every sort call is dropped if the
+    /// provider does not answer at once (a ranking heuristic with a "don't wait" policy) and
+    /// made again afterwards: requests are abandoned while other callers wait for them
+    DepsAbandon,
 }
 
 pub struct TableProvider {
@@ -341,7 +346,16 @@ impl DependencyProvider for TableProvider {
                 let _ = solver.get_or_cache_candidates(name).await;
             }
         }
-        if self.probe.get() == SortProbe::Deps {
+        if self.probe.get() == SortProbe::DepsAbandon {
+            if let Some(&s0) = solvables.first() {
+                if self.sref(s0).listed {
+                    let mut fut = Box::pin(solver.get_or_cache_dependencies(s0));
+                    let _ = futures::future::poll_fn(|cx| std::task::Poll::Ready(std::future::Future::poll(fut.as_mut(), cx).is_ready())).await;
+                    drop(fut);
+                }
+            }
+        }
+        if matches!(self.probe.get(), SortProbe::Deps | SortProbe::DepsAbandon) {
             for &s in solvables.iter().take(2) {
                 if !self.sref(s).listed {
                     continue;
